@@ -216,6 +216,11 @@ theorem NRw.removeAwaitKind_fst {p : Pid} {w : World} (h : NRw p w) (q : Pid) (k
 theorem NRw.timerAdd_fst {p : Pid} {w : World} (h : NRw p w) (d sig : Int) : NRw p (timerAdd w p d sig).1 :=
   ⟨h.nr.timerAdd_fst p d sig h.run, by rw [((KeepP.refl p w).timerAdd_fst p d sig).2]; exact h.run⟩
 
+/-- a timer armed for ANOTHER running process (`timerAddOf`) -/
+theorem NRw.timerAdd_of {p : Pid} {w : World} (h : NRw p w) (q : Pid) (d sig : Int) (hr : (w.proc q).status = .running) :
+    NRw p (timerAdd w q d sig).1 :=
+  ⟨h.nr.timerAdd_fst q d sig hr, by rw [((KeepP.refl p w).timerAdd_fst q d sig).2]; exact h.run⟩
+
 theorem NRw.timerCancel_fst {p : Pid} {w : World} (h : NRw p w) (q : Pid) (k : Nat) : NRw p (timerCancel w q k).1 :=
   ⟨h.nr.timerCancel_fst q k, by rw [((KeepP.refl p w).timerCancel_fst q k).2]; exact h.run⟩
 
@@ -329,6 +334,12 @@ theorem NRr.execCmd (h : NRw p w) (c : Cmd) : NRr p (execCmd w p c) := by
       split
       · exact NRr.ret (h.finishProc_other hqp v true) _ _
       · exact NRr.ret h _ _
+  | timerAddOf q d sig =>
+    simp only [Sim.execCmd]
+    split
+    · exact NRr.skip h
+    · rename_i hq
+      exact NRr.ret (h.timerAdd_of q d sig (by simpa [isRunning] using hq)) _ _
   | _ => simp only [Sim.execCmd] <;> nrt
 
 theorem NRr.resumeFrame (h : NRw p w) (f : Frame) (sig : Int) : NRr p (resumeFrame w p f sig) := by
